@@ -94,3 +94,20 @@ pub unsafe fn u128_fmt<'a>(_v: u128, _buf: &'a mut [core::mem::MaybeUninit<u8>])
 pub unsafe fn u64_fmt<'a>(_v: u64, _buf: &'a mut [core::mem::MaybeUninit<u8>]) -> &'a str {
     ""
 }
+
+pub fn general_error_name(_e: &gmsol_utils::GeneralError) -> String {
+    String::new()
+}
+pub fn fmt_general_error(_e: &gmsol_utils::GeneralError, _f: &mut std::fmt::Formatter<'_>) -> std::fmt::Result {
+    Ok(())
+}
+
+static mut LAST_RESTART_SLOT: u64 = 0;
+/// Publish the (arbitrary) last-restart slot reported by the cluster.
+pub fn set_last_restart_slot(slot: u64) {
+    unsafe { LAST_RESTART_SLOT = slot }
+}
+/// Stub body for `<LastRestartSlot as Sysvar>::get`.
+pub fn last_restart_slot_get() -> std::result::Result<anchor_lang::solana_program::last_restart_slot::LastRestartSlot, anchor_lang::prelude::ProgramError> {
+    Ok(anchor_lang::solana_program::last_restart_slot::LastRestartSlot { last_restart_slot: unsafe { LAST_RESTART_SLOT } })
+}
